@@ -100,9 +100,14 @@ type typedListener struct {
 	store string
 	typ   string
 	st    *schema.St
+	style string
 }
 
 func (l *typedListener) HandleEntityEvent(en *schema.Ent) {
+	if l.style != "" {
+		l.rec.add(delivery{Style: l.style, Store: l.store, Type: l.typ, Id: idOf(en)})
+		return
+	}
 	l.rec.add(delivery{Style: "AddEntityEventListener", Store: l.store, Type: l.typ, Id: idOf(en), Digest: entDigest(l.st, en)})
 }
 
@@ -178,7 +183,7 @@ func init() {
 		},
 		Run: runC08,
 		Promises: func(core.Tier) map[string][]string {
-			return map[string][]string{"tx_kind": {"update-committed", "update-rolled-back", "update-vetoed", "batch-committed", "batch-concurrent-with-failure"},
+			return map[string][]string{"nesting": {"nested-update", "nested-batch"}, "tx_kind": {"update-committed", "update-rolled-back", "update-vetoed", "batch-committed", "batch-concurrent-with-failure"},
 				"event": {"emps:created", "emps:updated", "emps:deleted", "depts:created", "depts:deleted", "emps/ext:created", "emps/ext:updated", "emps/ext:deleted", "emps/xt:created", "emps/xt:updated", "emps/xt:deleted",
 					"parent-event-for-child:created", "parent-event-for-child:updated", "parent-event-for-child:deleted"}}
 		},
@@ -242,6 +247,18 @@ func runC08(c *core.Ctx, idx int) {
 				rec.add(delivery{Style: "AddEntityIdListener", Store: k, Type: name, Id: id})
 			}, et)
 		}
+		// one registration per style carrying all three change types at once (sync and async mixed)
+		st.Store.AddListener(func(en boltz.Entity) {
+			x, _ := en.(*schema.Ent)
+			rec.add(delivery{Style: "multi:AddListener", Store: k, Type: "*", Id: idOf(x)})
+		}, boltz.EntityCreated, boltz.EntityUpdatedAsync, boltz.EntityDeleted)
+		st.Store.AddEntityEventListener(&typedListener{rec: rec, store: k, typ: "*", st: st, style: "multi:AddEntityEventListener"}, boltz.EntityCreatedAsync, boltz.EntityUpdated, boltz.EntityDeleted)
+		st.Store.AddEntityEventListenerF(func(en *schema.Ent) {
+			rec.add(delivery{Style: "multi:AddEntityEventListenerF", Store: k, Type: "*", Id: idOf(en)})
+		}, boltz.EntityCreated, boltz.EntityUpdated, boltz.EntityDeletedAsync)
+		st.Store.AddEntityIdListener(func(id string) {
+			rec.add(delivery{Style: "multi:AddEntityIdListener", Store: k, Type: "*", Id: id})
+		}, boltz.EntityCreated, boltz.EntityUpdated, boltz.EntityDeleted)
 		st.Store.AddEntityConstraint(&typedConstraint{rec: rec, store: k, st: st})
 		st.Store.AddUntypedEntityConstraint(&untypedConstraint{rec: rec, store: k, st: st, vetoOn: func(boltz.UntypedEntityChangeState) bool {
 			if vetoArmed {
@@ -351,7 +368,11 @@ func runC08(c *core.Ctx, idx int) {
 		// expected multiset
 		want := map[string]int{}
 		optional := map[string]bool{}
+		optionalIds := map[string]int{} // number of not-judged events per (store, id): multi-type listeners may or may not see them
 		for _, ev := range exp {
+			if ev.Optional {
+				optionalIds[ev.Store+"|"+ev.Id]++
+			}
 			for _, style := range c08Styles {
 				dg := ev.Digest
 				if style == "AddEntityIdListener" {
@@ -364,6 +385,11 @@ func runC08(c *core.Ctx, idx int) {
 				}
 				want[key]++
 			}
+			if !ev.Optional {
+				for _, style := range []string{"multi:AddListener", "multi:AddEntityEventListener", "multi:AddEntityEventListenerF", "multi:AddEntityIdListener"} {
+					want[strings.Join([]string{style, ev.Store, "*", ev.Id, ""}, "|")]++
+				}
+			}
 			c.Cover("event", ev.Store+":"+ev.Type)
 		}
 		have := map[string]int{}
@@ -372,6 +398,7 @@ func runC08(c *core.Ctx, idx int) {
 			if optional[strings.Join([]string{d.Style, d.Store, d.Type, d.Id}, "|")] {
 				continue
 			}
+
 			have[strings.Join([]string{d.Style, d.Store, d.Type, d.Id, d.Digest}, "|")]++
 			if d.InBody {
 				c.Violationf("C08 event delivered before the commit: "+d.Style+" "+d.Store+" "+d.Type, info, "%+v delivered while the transaction body was running (%s)", d, label)
@@ -408,6 +435,9 @@ func runC08(c *core.Ctx, idx int) {
 		for _, k := range keys {
 			if want[k] != have[k] {
 				p := strings.SplitN(k, "|", 5)
+				if strings.HasPrefix(p[0], "multi:") && have[k] > want[k] && have[k] <= want[k]+optionalIds[p[1]+"|"+p[3]] {
+					continue
+				}
 				kind := "missing"
 				if have[k] > want[k] {
 					kind = "extra"
@@ -465,7 +495,19 @@ func runC08(c *core.Ctx, idx int) {
 			})
 			for i := range ops {
 				op := ops[i]
-				if err := e.Apply(ctx, &op); err != nil {
+				apply := func(ctx boltz.MutateContext) error { return e.Apply(ctx, &op) }
+				var err error
+				switch (s + i) % 4 { // some operations run inside a nested Db.Update / Db.Batch on the same context
+				case 1:
+					err = e.Db.Update(ctx, apply)
+					c.Cover("nesting", "nested-update")
+				case 2:
+					err = e.Db.Batch(ctx, apply)
+					c.Cover("nesting", "nested-batch")
+				default:
+					err = apply(ctx)
+				}
+				if err != nil {
 					return err
 				}
 			}
